@@ -118,6 +118,13 @@ func VerifC01Sev() {
 	}
 	if verifNondetBool("preparsed") {
 		opts.Endorsement = &epb.VMLaunchEndorsement{SerializedUefiGolden: w.payload, Signature: w.signature}
+		// The caller names the endorsement to validate against; what the platform delivers in the
+		// certificate table may then be a different, perfectly genuine endorsement. Acceptance must
+		// still rest on checks of the one the caller named (its policy is what gets enforced).
+		if w.outer != nil && verifNondetBool("table_holds_another_endorsement") {
+			d := verifAddDecoy(w, 1)
+			w.outer = &epb.VMLaunchEndorsement{SerializedUefiGolden: d.payload, Signature: d.signature}
+		}
 	}
 	g := &verifGetter{blob: w.outerBytes, fail: verifNondetBool("get_fails")}
 	if verifNondetBool("has_getter") {
